@@ -45,10 +45,13 @@ func init() {
 	}
 	impls["nbns"] = func(a []string) string {
 		msg := lib.UnHex(a[0])
-		s := session()
-		h := dns_naming.VerifNew(s)
+		c := ctxFor(false)
 		f := udpFrame(137, 137, netip.MustParseAddr("192.168.0.255"), packet.EthBroadcast, msg)
-		_, err := h.ProcessNBNS(nil, packet.Ether(f), msg)
+		frame, err := c.s.Parse(exact(f))
+		if err != nil || frame.PayloadID != packet.PayloadNBNS {
+			return "parse-rejected"
+		}
+		_, err = dispatch(c, env{}, frame)
 		return oe(err)
 	}
 }
